@@ -166,9 +166,15 @@ def _history(shard, rec, pool):
     for ev in range(n_events):
         k = rnd.random()
         if k < 0.08:
-            mode = rnd.choice([True, False, None])
+            mode = rnd.choice([True, False, None, 'assign-on', 'assign-off'])
             from pamqp import encode
-            if mode is None:
+            if mode in ('assign-on', 'assign-off'):
+                # the switch is a public module attribute: assigning it
+                # directly is as good as calling the toggle function
+                encode.DEPRECATED_RABBITMQ_SUPPORT = mode == 'assign-on'
+                shadow = mode == 'assign-on'
+                rec.seen('op_kinds', 'toggle-by-assignment')
+            elif mode is None:
                 encode.support_deprecated_rabbitmq()
                 shadow = True
             else:
